@@ -90,3 +90,81 @@ func VerifH_C18_abnormal_exits() {
 	_, e3 := vm.Run("function n4() { return n1() } n4()")
 	verifAssert(e3 != nil, "and still rejects one level more")
 }
+
+// How the innermost level of the recursion runs its payload ("hit = 1;
+// probe()"): directly, or through one of the constructs that push further
+// execution contexts (built-in callbacks, indirect and direct eval, accessors,
+// constructors, call/apply, bound functions, a nested Run from a host function).
+var verifInnermost = []string{
+	"hit = 1; probe()",
+	"(0, eval)('hit = 1; probe()')",
+	"eval('hit = 1; probe()')",
+	"[1].forEach(function () { hit = 1; probe() })",
+	"hostRun()",
+	"({get p() { hit = 1; probe() }}).p",
+	"new (function () { hit = 1; probe() })()",
+	"(function () { hit = 1; probe() }).call(null)",
+	"(function () { hit = 1; probe() }).bind(null)()",
+	"var e = eval; e('hit = 1; probe()')",
+	"new Function('hit = 1; probe()')()",
+	"[2, 1].sort(function (a, b) { hit = 1; probe(); return a - b })",
+	"String(({toString: function () { hit = 1; probe(); return 's' }}))",
+}
+
+// C18-H4: the limit is exact on every way of entering a new execution context.
+// The depth a payload runs at is calibrated on a second runtime without a
+// limit (a host function reads the depth of its own scope); with limit L the
+// payload's effect must happen iff its depth is below L, the probe must run
+// iff its own depth is below L, and otherwise the script gets a RangeError.
+func VerifH_C18_limit_contexts() {
+	inner := verifInnermost[verifChoose(len(verifInnermost))]
+	d := 1 + verifChoose(3)
+	lim := int(verifNondetInt8())
+	verifAssume(lim >= 0 && lim <= 9)
+	script := "var hit = 0, caught = 'no'; function f(n) { if (n <= 1) { " + inner + "; return 1 } return 1 + f(n - 1) } try { f(D) } catch (e) { caught = e instanceof RangeError ? 'RangeError' : 'other' } caught"
+	verifLog(inner)
+	run := func(limit int) (probeDepth int, hit bool, caught string, ok bool) {
+		vm := New()
+		probeDepth = -1
+		vm.Set("probe", func(call FunctionCall) Value {
+			probeDepth = call.runtime.scope.depth
+			return Value{}
+		})
+		vm.Set("hostRun", func(call FunctionCall) Value {
+			v, err := call.Otto.Run("hit = 1; probe()")
+			if err != nil {
+				// rethrow into the calling script the documented way
+				if oe, isOtto := err.(*Error); isOtto && len(oe.Error()) > 10 && oe.Error()[:10] == "RangeError" {
+					panic(call.Otto.MakeRangeError("nested Run: " + oe.Error()))
+				}
+				panic(call.Otto.MakeTypeError("nested Run: " + err.Error()))
+			}
+			return v
+		})
+		vm.Set("D", d)
+		vm.SetStackDepthLimit(limit)
+		scopeBefore := vm.runtime.scope
+		var v Value
+		var err error
+		kind, _ := verifCatch(func() { v, err = vm.Run(script) })
+		ok = kind == verifNormal && err == nil && vm.runtime.scope == scopeBefore
+		h, _ := vm.Get("hit")
+		hf, _ := h.ToFloat()
+		return probeDepth, hf == 1, v.String(), ok
+	}
+	p0, hit0, caught0, ok0 := run(0)
+	verifCover("reached")
+	verifAssert(ok0 && hit0 && caught0 == "no" && p0 >= d+1, "without a limit the payload and the probe run")
+	if !ok0 || p0 < 0 {
+		return
+	}
+	p, hit, caught, ok := run(lim)
+	verifAssert(ok, "the script completes and the runtime is at rest")
+	if lim == 0 || p0 < lim {
+		verifAssert(hit && p == p0 && caught == "no", "nesting below the limit is admitted")
+		return
+	}
+	verifAssert(caught == "RangeError", "nesting at or beyond the limit ends in a catchable RangeError")
+	verifAssert(p == -1, "the probe, whose scope would be at the limit or beyond, does not run")
+	verifAssert(hit == (p0-1 < lim), "code of an execution context runs iff its depth is below the limit (no context is admitted one level too deep)")
+}
